@@ -1,7 +1,8 @@
 #!/bin/sh
 # false-alarm soak: every quick check with several seeds on the current tree; prints one line per (seed, check)
 SEEDS=${SEEDS:-"2 3 4"}; TIER=${TIER:-quick}
-for s in $SEEDS; do for id in C01 C02 C03 C04 C05 C06 C07 C08 C09 C10 C11 C12 C13 C14 C15 C16 C17 C18 C19 C20; do
+CHECKS=${CHECKS:-"C01 C02 C03 C04 C05 C06 C07 C08 C09 C10 C11 C12 C13 C14 C15 C16 C17 C18 C19 C20"}
+for s in $SEEDS; do for id in $CHECKS; do
   out=$(VERIF_SEED=$s ./vcheck run $id --tier $TIER 2>&1); rc=$?
   echo "seed=$s $id rc=$rc $(echo "$out" | grep -E '^(OK|VIOLATION)' | head -2 | tr '\n' ' ')"
   if [ $rc -ne 0 ]; then echo "$out" | tail -5; fi
